@@ -29,6 +29,7 @@ def dispatch (j : Json) : Except String Json := do
   | "pretty" => handlePretty j
   | "edits" => handleEdits j
   | "nav" => handleNav j
+  | "nav_filtered" => handleNavFiltered j
   | "guard" => handleGuard j
   | "clone" => handleClone j
   | "xpath" => handleXPath j
